@@ -461,6 +461,13 @@ func GenPlan(prop string, seed uint64) *Plan {
 			budget--
 		}
 	}
+	if prop == "C10" && mix(p.Inner, 0x6c61746d)%3 == 0 {
+		// the servers emulate wide-area latencies (an option of the real server; zero delay here)
+		if p.Knobs == nil {
+			p.Knobs = map[string]int{}
+		}
+		p.Knobs["latmatrix"] = 1
+	}
 	if (prop == "C06" || prop == "C10" || prop == "C12" || prop == "C13") && len(p.Byz) > 0 && mix(p.Inner, 0x6e6f6261)%2 == 0 {
 		// some of the blocks the Byzantine replicas make up carry no command batch at all, and the Byzantine replicas
 		// serve the blocks they made up when asked for them (so an unverifiable certificate can plant one in a store)
